@@ -642,12 +642,19 @@ def check_runs(prog: Program, res: Result) -> None:
         for st in walk_function(fi.node):
             if not (isinstance(st, ast.Assign) and len(st.targets) == 1 and norm(st.targets[0]) == "self.steps_per_epoch"):
                 continue
-            if not any(isinstance(x, ast.BinOp) and isinstance(x.op, ast.FloorDiv) for x in ast.walk(st.value)):
+            vx = astq.expand_at(fi.node, st.value, st)
+            if not any(isinstance(x, ast.BinOp) and isinstance(x.op, ast.FloorDiv) for x in ast.walk(vx)):
                 continue
             n += 1
             res.touch(fi)
             v = st.value
             clamped = isinstance(v, ast.Call) and norm(v.func) == "max" and any(isinstance(astq.const_value(a), (int, float)) and astq.const_value(a) >= 1 for a in v.args)
+            if isinstance(v, ast.IfExp) and isinstance(v.test, ast.Compare) and len(v.test.ops) == 1 and astq.const_value(v.test.comparators[0]) == 0:
+                # x if x != 0 else 1   /   1 if x == 0 else x   /   x if x > 0 else 1
+                zero_arm = v.orelse if isinstance(v.test.ops[0], (ast.NotEq, ast.Gt)) else (v.body if isinstance(v.test.ops[0], (ast.Eq, ast.LtE)) else None)
+                other_arm = v.body if zero_arm is v.orelse else v.orelse
+                if zero_arm is not None and isinstance(astq.const_value(zero_arm), (int, float)) and astq.const_value(zero_arm) >= 1 and norm(other_arm) == norm(v.test.left):
+                    clamped = True
             if isinstance(v, ast.BoolOp) and isinstance(v.op, ast.Or) and isinstance(astq.const_value(v.values[-1]), (int, float)) and astq.const_value(v.values[-1]) >= 1:
                 clamped = True   # n // b or 1
             par = getattr(st, "_parent", None)
